@@ -28,7 +28,18 @@ DoOp == /\ l <= Len(Trace) /\ Trace[l].e = "op"
         /\ \E t \in Trace[l].t0..Trace[l].t1 : \E s2 \in Post(st, Trace[l].op, t, Trace[l].res, Trace[l].t1) : st' = s2
         /\ l' = l + 1
 
-Next == Reset \/ DoOp
+\* a batch that was being written while the clock moved on: the records before some position carry an earlier second than
+\* the records behind it (each record is stamped when the backend stores it)
+DoSplitBatch ==
+        /\ l <= Len(Trace) /\ Trace[l].e = "op" /\ Trace[l].op.op = "PutMany" /\ Trace[l].t0 < Trace[l].t1
+        /\ \E j \in 1..(Len(Trace[l].op.batch) - 1) : \E ta \in Trace[l].t0..(Trace[l].t1 - 1) : \E tb \in (ta + 1)..Trace[l].t1 :
+              LET o == Trace[l].op
+                  oa == [o EXCEPT !.batch = SubSeq(o.batch, 1, j)]
+                  ob == [o EXCEPT !.batch = SubSeq(o.batch, j + 1, Len(o.batch))]
+              IN \E s1 \in Post(st, oa, ta, Trace[l].res, Trace[l].t1) : \E s2 \in Post(s1, ob, tb, Trace[l].res, Trace[l].t1) : st' = s2
+        /\ l' = l + 1
+
+Next == Reset \/ DoOp \/ DoSplitBatch
 Spec == Init /\ [][Next]_vars
 
 Accepted == TLCGet("stats").diameter - 1 = Len(Trace)
